@@ -69,7 +69,44 @@ func confText() string {
 	return b.String()
 }
 
-var probeAnswers = map[string]int{"verified.example": 1, "neg.example": 0}
+// Verification probe: per-family outcome table of the stubbed resolver, {addr, nodata, error} x {addr, nodata, error}.
+// One name per cell ("p" + A outcome + AAAA outcome: a = address, n = no record, e = query error), plus the two
+// names of the first version of this check. Names of the form c<x><y>-<n>.example get the outcome <x><y> too
+// (fresh names for the flow-1 / probe / flow-2 sequences of leg C).
+var outcomeLetters = []byte{'a', 'n', 'e'} // index = control.VerifC18ProbeAddr / NoData / Err
+
+var probeAnswers = map[string][2]uint8{
+	"verified.example": {control.VerifC18ProbeAddr, control.VerifC18ProbeNoData},
+	"neg.example":      {control.VerifC18ProbeNoData, control.VerifC18ProbeNoData},
+}
+
+var probeCellNames []string
+
+func letterIdx(c byte) (uint8, bool) {
+	for i, l := range outcomeLetters {
+		if l == c {
+			return uint8(i), true
+		}
+	}
+	return 0, false
+}
+
+// dynamicProbeAnswer: c<x><y>-<digits>.example
+func dynamicProbeAnswer(host string) ([2]uint8, bool) {
+	if len(host) < 5 || host[0] != 'c' || host[3] != '-' || !strings.HasSuffix(host, ".example") {
+		return [2]uint8{}, false
+	}
+	a, ok1 := letterIdx(host[1])
+	b, ok2 := letterIdx(host[2])
+	return [2]uint8{a, b}, ok1 && ok2
+}
+
+// probeFindsAddress: the reference reading of "verified": the probe found an address for the name on at least
+// one family (an error or an empty answer on the other family does not take that away); no address at all =
+// not verified, whatever mixture of empty answers and errors produced that.
+func probeFindsAddress(o [2]uint8) bool {
+	return o[0] == control.VerifC18ProbeAddr || o[1] == control.VerifC18ProbeAddr
+}
 
 func seed(env *control.VerifC18Env) error {
 	both := []string{"known.example", "name.com", "direct.example", "blocked.example", "MiXed.Example"}
@@ -90,11 +127,15 @@ func seed(env *control.VerifC18Env) error {
 	if err := env.LearnDNS("nodata.example", typeAAAA, nil, 3600, true); err != nil {
 		return err
 	}
-	if !env.ProbeRealDomain("verified.example") {
-		return fmt.Errorf("probe of verified.example did not succeed")
+	// the production probe body, once per name of the table; what it concluded is judged by the domain-mode
+	// cells of these names (not by its return value)
+	names := make([]string, 0, len(probeAnswers))
+	for n := range probeAnswers {
+		names = append(names, n)
 	}
-	if env.ProbeRealDomain("neg.example") {
-		return fmt.Errorf("probe of neg.example succeeded")
+	sort.Strings(names)
+	for _, n := range names {
+		env.ProbeRealDomain(n)
 	}
 	return nil
 }
@@ -105,7 +146,22 @@ func init() {
 	}
 	dnsA["a4only.example"] = true
 	nodata["nodata.example"] = true
-	verified["verified.example"] = true
+	for _, x := range outcomeLetters {
+		for _, y := range outcomeLetters {
+			xi, _ := letterIdx(x)
+			yi, _ := letterIdx(y)
+			n := "p" + string([]byte{x, y}) + ".example"
+			probeAnswers[n] = [2]uint8{xi, yi}
+			probeCellNames = append(probeCellNames, n)
+		}
+	}
+	for n, o := range probeAnswers {
+		if probeFindsAddress(o) {
+			verified[n] = true
+		}
+	}
+	named = append(named, probeCellNames...)
+	named = append(named, "Pen.Example", "pne.example.", "pen.example:443", "pae.example:8443")
 }
 
 // ---------------------------------------------------------------------------------------------
@@ -446,7 +502,7 @@ func main() {
 	if r.Thorough() {
 		lenA, lenB = 6, 4
 	}
-	control.VerifC18InstallProbeResolver(probeAnswers)
+	control.VerifC18InstallProbeResolver(probeAnswers, dynamicProbeAnswer)
 	stringsA := allStrings(lenA)
 	stringsB := allStrings(lenB)
 	conf := confText()
@@ -454,7 +510,7 @@ func main() {
 	r.Set("strings_leg_B", len(stringsB))
 	r.Set("max_len_leg_A", lenA)
 	r.Set("max_len_leg_B", lenB)
-	r.Rule(fmt.Sprintf("full product of 4 dial modes x outbound index x dst {v4,v6,v4-mapped} x port {1,443,65535} x sniffed string, where the strings are a de-duplicated set of %d named forms plus every string of length<=%d (leg A: ChooseDialTarget) / <=%d (leg B: routeDial + chooseProxyDialer, tcp and udp) over {a . : [ ] 1}; leg A additionally sweeps all 256 outbound indices over the named forms. A case is (leg, mode, outbound, dst, port, network, string); it is non-trivial when the string is non-empty; distinct_nontrivial is counted from the de-duplicated string set per distinct (leg, mode, outbound, dst, port, network) cell (cells are checked for uniqueness)", len(named), lenA, lenB))
+	r.Rule(fmt.Sprintf("full product of 4 dial modes x outbound index x dst {v4,v6,v4-mapped} x port {1,443,65535} x sniffed string, where the strings are a de-duplicated set of %d named forms plus every string of length<=%d (leg A: ChooseDialTarget) / <=%d (leg B: routeDial + chooseProxyDialer, tcp and udp) over {a . : [ ] 1}; leg A additionally sweeps all 256 outbound indices over the named forms; leg C runs, per (mode, outbound, dst, port), the 9 per-family probe outcomes {addr,nodata,error}^2 as flow 1 -> background verification probe -> flow 2 on a fresh name. A case is (leg, mode, outbound, dst, port, network, string); it is non-trivial when the string is non-empty; distinct_nontrivial is counted from the de-duplicated string set per distinct (leg, mode, outbound, dst, port, network) cell (cells are checked for uniqueness)", len(named), lenA, lenB))
 
 	evals := r.Counter("evaluations")
 	distinct := r.Counter("distinct_nontrivial")
@@ -475,8 +531,11 @@ func main() {
 	obsMalformed, obsFlag := &sync.Map{}, &sync.Map{}
 
 	// judge one (target, dialIp) against the table; returns "" or the reason
+	var judgeW func(w want, mode string, dst netip.AddrPort, s, target string, dialIp bool) string
 	judge := func(mode string, finalBuiltin bool, dst netip.AddrPort, s, target string, dialIp bool) string {
-		w := wantFor(mode, finalBuiltin, dst.Addr(), s)
+		return judgeW(wantFor(mode, finalBuiltin, dst.Addr(), s), mode, dst, s, target, dialIp)
+	}
+	judgeW = func(w want, mode string, dst netip.AddrPort, s, target string, dialIp bool) string {
 		ipWhy := checkIPTarget(dst, target, dialIp)
 		switch w {
 		case wantIP:
@@ -755,6 +814,91 @@ func main() {
 		}
 	})
 
+	// ---------------- leg C: flow 1 -> background verification probe -> flow 2 ----------------
+	// Fresh names (one per cell of the per-family probe outcome table, unique per enumeration cell) that nobody
+	// resolved through dae. Flow 1 sniffs the name (unknown => in domain mode the code starts the probe through
+	// triggerRealDomainProbe in the background); the harness waits for that probe to finish; flow 2 sniffs the
+	// same name. Reference: flow 1 = not known yet; flow 2 = verified iff the probe found an address.
+	type chunkC struct {
+		mode string
+		ob   uint8
+		d    dstKind
+		port uint16
+	}
+	var chunksC []chunkC
+	for _, m := range modes {
+		for _, o := range []uint8{2, 3, 0xFB, 0, 0xFD} {
+			for _, d := range dsts {
+				for _, p := range ports {
+					chunksC = append(chunksC, chunkC{m, o, d, p})
+				}
+			}
+		}
+	}
+	r.Set("cells_leg_C", len(chunksC))
+	cProbeRan := r.Counter("legC_background_probes_completed")
+	cVerifiedAfter := r.Counter("legC_flow2_dialled_by_name_after_successful_probe")
+	cRefusedAfter := r.Counter("legC_flow2_kept_ip_after_probe_without_address")
+	r.ParallelFor(len(chunksC), func(i int) {
+		c := chunksC[i]
+		env := seedEnv(c.mode)
+		if env == nil {
+			return
+		}
+		defer env.Close()
+		dst := netip.AddrPortFrom(c.d.addr, c.port)
+		for _, x := range outcomeLetters {
+			for _, y := range outcomeLetters {
+				name := fmt.Sprintf("c%c%c-%d.example", x, y, i)
+				outcome, _ := dynamicProbeAnswer(name)
+				evals.Add(2)
+				distinct.Add(2)
+				sig := fmt.Sprintf("leg=C mode=%s ob=%d dst=%v sniffed=%q probe(A,AAAA)=(%c,%c)", c.mode, c.ob, dst, name, x, y)
+				var t1, t2 string
+				var ip1, ip2 bool
+				if p, msg := vlib.Try(func() { t1, _, ip1 = env.Choose(c.ob, dst, name) }); p {
+					r.Violation(sig+" flow=1 panic at "+vlib.PanicSite(msg), msg)
+					continue
+				}
+				// flow 1: the name is not known by anybody yet
+				w1 := wantFor(c.mode, builtin(c.ob), dst.Addr(), name)
+				if why := judgeW(w1, c.mode, dst, name, t1, ip1); why != "" && lim.ok("C-flow1|"+c.mode, 4) {
+					r.Violation(sig+fmt.Sprintf(" flow=1 got=%q dialIp=%v: %s", t1, ip1, why), nil)
+				}
+				probed := false
+				if c.mode == "domain" && !builtin(c.ob) {
+					probed = env.WaitAsyncProbe(name, 60*time.Second)
+					if !probed {
+						r.CapHit("leg C: background probe did not show up (flow 2 of that name not judged)")
+						continue
+					}
+					cProbeRan.Add(1)
+				}
+				if p, msg := vlib.Try(func() { t2, _, ip2 = env.Choose(c.ob, dst, name) }); p {
+					r.Violation(sig+" flow=2 panic at "+vlib.PanicSite(msg), msg)
+					continue
+				}
+				w2 := w1
+				if probed && probeFindsAddress(outcome) {
+					w2 = wantName
+				}
+				why := judgeW(w2, c.mode, dst, name, t2, ip2)
+				if why != "" && lim.ok("C-flow2|"+c.mode, 6) {
+					r.Violation(sig+fmt.Sprintf(" flow=2 (after the verification probe) got=%q dialIp=%v: %s", t2, ip2, why),
+						map[string]any{"mode": c.mode, "outbound": c.ob, "dst": dst.String(), "sniffed": name, "probe_A": string(x), "probe_AAAA": string(y), "flow1": t1, "flow2": t2, "why": why})
+				}
+				if probed && why == "" {
+					if probeFindsAddress(outcome) {
+						cVerifiedAfter.Add(1)
+					} else {
+						cRefusedAfter.Add(1)
+					}
+				}
+				outcomeKinds.Store(fmt.Sprintf("C|%s|builtin=%v|%c%c|probed=%v|t1IsIP=%v|t2IsIP=%v", c.mode, builtin(c.ob), x, y, probed, checkIPTarget(dst, t1, true) == "", checkIPTarget(dst, t2, true) == ""), true)
+			}
+		}
+	})
+
 	nk := 0
 	outcomeKinds.Range(func(_, _ any) bool { nk++; return true })
 	r.Set("distinct_outcome_kinds", nk)
@@ -777,6 +921,8 @@ func main() {
 
 	r.Assume("names become known only through DnsController.NormalizeAndCacheDnsResp_ (answer learned by the DNS path) and ControlPlane.probeAndUpdateRealDomain (verification probe); the probe's network resolver is replaced through the package variable resolveIp46ForRealDomainProbe by a table, and realDomainNegativeCacheTTL (10 s) is lengthened so a negative entry outlives the run")
 	r.Assume("the statement demands re-routing only for domain++; it does not forbid it elsewhere, so a re-route in another mode (the code does it in domain mode for a known name) is counted (obs_domain_mode_known_name_rerouted) and the resulting group must then equal the reference route of that name, but it is not a violation")
+	r.Assume("'verified' is read as: the verification probe found an address for the name on at least one family. The resolver stub returns every per-family combination {address, no record, error} x {address, no record, error}; address on one family + error or no record on the other counts as verified (an address was found); no address at all (both empty, both failed, or the half-failed mixes error+no record) is NOT verified and must give the destination IP in domain mode — both for names probed up front and for the sequence flow 1 -> background probe -> flow 2 (leg C)")
+	r.Assume("leg C waits for the background probe by polling the stub's call counter and joining the probe's singleflight slot; the wall clock is used for that synchronisation only (a probe that never shows up within 60 s leaves flow 2 unjudged and clears 'exhaustive')")
 	r.Assume("cells the statement leaves open accept both outcomes and are counted separately: case/trailing-dot variants of a known name, a known name that already carries a port, a name known only for the other address family or only by an empty (NODATA) answer — all in domain mode")
 	r.Assume("well-formedness of the target is demanded for sniffed values that are host names, IP literals (bare/bracketed) or host:port with a valid port; for other strings ('[', 'a]', 'a:', ':1' ...) only absence of panic and the IP cells are checked, malformed results are counted in obs_garbage_sniff_gives_malformed_target")
 	r.Assume("dialIp must be true when the target is the destination IP or a normalised bare/bracketed IP literal and false for a host name; for an IP literal that already carries a port the statement says nothing about the flag: counted in obs_ip_literal_with_port_dialIp_false")
